@@ -8,6 +8,7 @@ Model: Model/Merge.lean (`MergeCells`, `Table.merge_cells` with fixes/C12-merge-
 `add_row` / `add_column` / `delete_row` / `delete_column`) on top of the grid model of C03.
 -/
 import NumbersModel.Lemmas.MergeEdit
+import NumbersModel.Lemmas.TrMerge
 namespace NumbersModel.Props.C12
 open NumbersModel NumbersModel.Grid NumbersModel.Merge
 
@@ -303,3 +304,44 @@ example :
       = .ok ([[0, 0, 0], [0, 0, 0], [0, 0, 7]], [[0, 0, 0], [0, 0, 0], [0, 0, 0]]) := by rfl
 
 end NumbersModel.Props.C12
+
+/-! ## The packing clauses over the arithmetic translated from the Python source
+
+`Gen/TrMerge.lean` is regenerated by `harness/py2lean.py` from `model.py` in the working tree on every check run: the body
+of the loop of `recalculate_merged_cells` (`col << 16 | row`, `ncols << 16 | nrows`, each stored in a `uint32` field) and
+the body of the loop of `calculate_merge_cell_ranges` up to the loops that fill the map (`>> 16`, `& 0xFFFF`, the two
+`… - 1`).  `Lemmas/TrMerge.lean` proves them equal to `pack32` / `loadRange` for all ints resp. all stored values
+(`|` and `&` with Python's two's-complement reading of negative operands). -/
+namespace NumbersModel.Props.C12.Src
+open NumbersModel NumbersModel.Merge NumbersModel.Gen.T NumbersModel.Translated
+
+/-- **Packing round trip over the source.**  An anchor at `(row, col)` of size `(h, w)`, all four below 2^16: what the
+    save loop stores is read back by the load loop as the same origin, the same size and the rectangle's last row / column. -/
+theorem src_mergemap_roundtrip (row col h w : Nat) (hr : row < 65536) (hc : col < 65536) (hh : h < 65536) (hw : w < 65536) :
+    ∃ o sz : Nat, merge_pack ((row : Int), (col : Int)) ((h : Int), (w : Int)) = .ok ((o : Int), (sz : Int)) ∧
+      merge_unpack (o : Int) (sz : Int) =
+        .ok ((row : Int), (col : Int), (row : Int) + (h : Int) - 1, (col : Int) + (w : Int) - 1, (h : Int), (w : Int)) := by
+  refine ⟨col <<< 16 ||| row, w <<< 16 ||| h, ?_, ?_⟩
+  · rw [merge_pack_eq_model, pack32_ok col row hc hr, pack32_ok w h hw hh]; rfl
+  · rw [merge_unpack_values, unpack_hi col row hr, unpack_lo col row hr, unpack_hi w h hh, unpack_lo w h hh]
+
+/-- a negative coordinate or size never reaches the file: the `uint32` field refuses it (`ValueError`). -/
+theorem src_pack_rejects_negative (row col h w : Int) (hneg : row < 0 ∨ col < 0) :
+    merge_pack (row, col) (h, w) = .error .ValueError := by
+  rw [merge_pack_eq_model]
+  have : col < 0 ∨ row < 0 := hneg.symm
+  simp only [pack32, this, if_true, bind, Except.bind]
+
+/-- the loop body of the reader is the model's `loadRange` (same entries in the same order), for every stored pair. -/
+theorem src_load_range (m : MMap) (p : Nat × Nat) :
+    (merge_unpack (p.1 : Int) (p.2 : Int)).map (fillRect m) = .ok (loadRange m p) := merge_unpack_eq_model m p
+
+/-- the bound on the row is needed (known finding merge-origin-row-over-65535): row 65536, column 0 is stored without
+    complaint and read back as row 0, column 1. -/
+example : merge_pack (65536, 0) (1, 1) = .ok (65536, 65537) ∧ merge_unpack 65536 65537 = .ok (0, 1, 0, 1, 1, 1) := by
+  decide +kernel
+
+example : merge_pack (3, 70000) (1, 1) = .error .ValueError ∧ merge_pack (-1, 2) (1, 1) = .error .ValueError := by
+  decide +kernel
+
+end NumbersModel.Props.C12.Src
